@@ -51,12 +51,13 @@ CONSTANTS Nets,        \* candidate networks [n, np, wires]
           CheckPeriod, \* how often timeouts are looked for
           SendsPerSec, \* rate limit of the probe sender (timer runs per second)
           Slack,       \* timer granularity allowance
-          D            \* export depth
+          D,           \* export depth
+          MaxFlight    \* how many delayed probes may be in flight at a time (round 8)
 
-VARIABLES net, cfg, phys, conn, adj, nf, age, quiet, since, last, hist
-vars  == <<net, cfg, phys, conn, adj, nf, age, quiet, since, last, hist>>
-view  == <<net, cfg, phys, conn, adj, nf, age, quiet, since, last>>
-viewE == <<net, cfg, phys, conn, adj, nf, age, quiet, since>>
+VARIABLES net, cfg, phys, conn, adj, nf, age, quiet, since, flight, last, hist
+vars  == <<net, cfg, phys, conn, adj, nf, age, quiet, since, flight, last, hist>>
+view  == <<net, cfg, phys, conn, adj, nf, age, quiet, since, flight, last>>
+viewE == <<net, cfg, phys, conn, adj, nf, age, quiet, since, flight>>
 
 \* timing as a function of the configured link timeout (whole seconds; the
 \* probe cycle is half the timeout, rounded up where it is not whole)
@@ -244,6 +245,7 @@ Init == /\ net \in Nets
         /\ age = [l \in net.wires |-> Cap]
         /\ quiet = Cap
         /\ since = [s \in Switches |-> HoldCap]
+        /\ flight = {}
         /\ last = NoObs
         /\ hist = <<>>
 
@@ -265,14 +267,14 @@ Cut(l) ==
   /\ l \in phys
   /\ phys' = phys \ {l}
   /\ age' = NewAge(phys', conn, 0)
-  /\ UNCHANGED <<net, cfg, conn, adj, nf, quiet, since>>
+  /\ UNCHANGED <<net, cfg, conn, adj, nf, quiet, since, flight>>
   /\ Log("Cut", [l |-> l], [adj |-> adj, evs |-> <<>>, nf |-> nf])
 
 Restore(l) ==
   /\ l \in net.wires \ phys
   /\ phys' = phys \cup {l}
   /\ age' = NewAge(phys', conn, 0)
-  /\ UNCHANGED <<net, cfg, conn, adj, nf, quiet, since>>
+  /\ UNCHANGED <<net, cfg, conn, adj, nf, quiet, since, flight>>
   /\ Log("Restore", [l |-> l], [adj |-> adj, evs |-> <<>>, nf |-> nf])
 
 \* environment assumption: the set of connected switches changes in batches
@@ -286,7 +288,7 @@ Permitted(R, ph, cn, dt, q) ==
 Apply(a, args, ph, cn, dt, q, R) ==
   /\ phys' = ph /\ conn' = cn /\ age' = NewAge(ph, cn, dt) /\ quiet' = q
   /\ adj' = R.adj /\ nf' = R.nf /\ since' = NewSince(cn, dt)
-  /\ UNCHANGED <<net, cfg>>
+  /\ UNCHANGED <<net, cfg, flight>>
   /\ Log(a, args, [adj |-> R.adj, evs |-> R.evs, nf |-> R.nf])
 
 
@@ -302,11 +304,43 @@ SwitchUp(s, R)   == UpEnv(s) /\ Permitted(R, phys, conn \cup {s}, 0, 0) /\ UpDo(
 SwitchDown(s, R) == DownEnv(s) /\ Permitted(R, phys, conn \ {s}, 0, 0) /\ DownDo(s, R)
 Advance(d, R)    == AdvEnv(d) /\ Permitted(R, phys, conn, d, Lesser(quiet + d, Cap)) /\ AdvDo(d, R)
 
+\* ---- probes in flight (round 8).  The network between two switches and the
+\* control channel of the receiving switch take time: a probe that travelled
+\* over wire w may reach the controller (as a packet-in of switch w[3]) any
+\* time later - after the wire was cut, after its sender w[1] disconnected.
+\* `flight` = wires of which a (copy of a) probe is still on its way.
+\*   Delay(w): a probe travelling over the known live wire w is delayed (silent).
+\*   Late(w, R): it reaches the controller now, in a 0-second step of its own.
+\* What the property says about the response: w itself may (re)appear iff both
+\* its ends are connected - a probe DID travel over it, the controller cannot
+\* know that it was cut meanwhile, so the step is judged as if w were up and w's
+\* silence counts from now (LateAge) -; no other link appears, nothing live is
+\* dropped, and above all NO link of a disconnected switch comes back.
+LateLive(w) == w[1] \in conn /\ w[3] \in conn
+LatePhys(w) == phys \cup {w}
+LateAge(w)  == IF w \notin phys /\ LateLive(w) THEN [age EXCEPT ![w] = 0] ELSE age
+
+Delay(w) ==
+  /\ Cardinality(flight) < MaxFlight
+  /\ w \in adj /\ IsLive(w, phys, conn) /\ w \notin flight
+  /\ flight' = flight \cup {w}
+  /\ UNCHANGED <<net, cfg, phys, conn, adj, nf, age, quiet, since>>
+  /\ Log("Delay", [l |-> w], [adj |-> adj, evs |-> <<>>, nf |-> nf])
+
+LateEnv(w) == w \in flight /\ w[3] \in conn
+LateReason(R, w) == Reason(R, LatePhys(w), conn, LateAge(w), quiet, 0, LiveSet(phys, conn), since)
+LateDo(w, R) ==
+  /\ flight' = flight \ {w}
+  /\ adj' = R.adj /\ nf' = R.nf /\ age' = LateAge(w)
+  /\ UNCHANGED <<net, cfg, phys, conn, quiet, since>>
+  /\ Log("Late", [l |-> w], [adj |-> R.adj, evs |-> R.evs, nf |-> R.nf])
+Late(w, R) == LateEnv(w) /\ LateReason(R, w) = "ok" /\ LateDo(w, R)
+
 \* a frame from a host is flooded through the converged network
 Flood(s, p) ==
   /\ Converged
   /\ s \in Switches /\ p \in HostPorts(s)
-  /\ UNCHANGED <<net, cfg, phys, conn, adj, nf, age, quiet, since>>
+  /\ UNCHANGED <<net, cfg, phys, conn, adj, nf, age, quiet, since, flight>>
   /\ Log("Flood", [s |-> s, p |-> p],
          [rx |-> Delivered(s, p), storm |-> Storm(s, p)])
 
@@ -349,6 +383,17 @@ CutNext        == \E l \in phys : Cut(l)
 RestoreNext    == \E l \in net.wires \ phys : Restore(l)
 FloodNext      == \E s \in Switches : \E p \in HostPorts(s) : Flood(s, p)
 
+\* a late probe: every permitted response
+LateAdjChoices(w) ==
+  LET cand == adj \cup (IF LateLive(w) THEN {w} ELSE {})
+  IN {A \in SUBSET cand : AdjReason(A, LatePhys(w), conn, LateAge(w), quiet, 0, LiveSet(phys, conn)) = "ok"}
+LateResponses(w) ==
+  UNION {{[adj |-> A, evs |-> es, nf |-> N] : N \in NFChoices(A, conn, since), es \in EvChoices(A, LatePhys(w), conn, 0)}
+         : A \in LateAdjChoices(w)}
+DelayNext == \E w \in adj : Delay(w)
+LateOne(w) == LateEnv(w) /\ \E R \in LateResponses(w) : LateDo(w, R)
+LateNext == \E w \in flight : LateOne(w)
+
 UpAny      == \E s \in Switches : UpNext(s)
 DownAny    == \E s \in Switches : DownNext(s)
 AdvanceAny == \E d \in DurSet : AdvanceNext(d)
@@ -359,6 +404,8 @@ Next == \/ UpAny
         \/ CutNext
         \/ RestoreNext
         \/ FloodNext
+        \/ DelayNext
+        \/ LateNext
 
 Spec == Init /\ [][Next]_vars
 
@@ -371,12 +418,19 @@ RefR(ph, cn, dt, q) ==
       mx == CHOOSE R \in RS : /\ R.evs = CanonEvs(R.adj)
                                /\ \A Q \in RS : Cardinality(Q.adj) <= Cardinality(R.adj)
   IN mx
+\* (the reference controller believes a late probe whenever it may)
+LateRefR(w) ==
+  LET RS == LateResponses(w)
+  IN CHOOSE R \in RS : /\ R.evs = CanonEvs(R.adj)
+                        /\ \A Q \in RS : Cardinality(Q.adj) <= Cardinality(R.adj)
 NextRef == \/ \E s \in Switches \ conn : SwitchUp(s, RefR(phys, conn \cup {s}, 0, 0))
            \/ \E s \in conn : SwitchDown(s, RefR(phys, conn \ {s}, 0, 0))
            \/ \E d \in DurSet : Advance(d, RefR(phys, conn, d, Lesser(quiet + d, Cap)))
            \/ CutNext
            \/ RestoreNext
            \/ FloodNext
+           \/ DelayNext
+           \/ \E w \in flight : Late(w, LateRefR(w))
 
 ----------------------------------------------------------------------------
 (* Properties checked by TLC on the specification itself.                  *)
@@ -387,6 +441,7 @@ TypeOK == /\ net \in Nets /\ cfg \in Configs /\ CfgFits(cfg, net)
           /\ age \in [net.wires -> 0..Cap] /\ quiet \in 0..Cap
           /\ since \in [Switches -> 0..HoldCap]
           /\ (~Modal => since = [s \in Switches |-> HoldCap])
+          /\ flight \subseteq net.wires /\ Cardinality(flight) <= MaxFlight
 
 \* the adjacency never names a link of a disconnected switch ...
 WithdrawnOnDisconnect == \A l \in adj : l[1] \in conn /\ l[3] \in conn
@@ -423,13 +478,14 @@ Responsive ==
         NFChoices(A, conn \cup {s}, NewSince(conn \cup {s}, 0)) # {}
   /\ \A s \in conn : \E A \in AdjChoices(phys, conn \ {s}, 0, 0) : NFChoices(A, conn \ {s}, NewSince(conn \ {s}, 0)) # {}
   /\ \A d \in DurSet : \E A \in AdjChoices(phys, conn, d, Lesser(quiet + d, Cap)) : NFChoices(A, conn, NewSince(conn, d)) # {}
+  /\ \A w \in flight : w[3] \in conn => LateResponses(w) # {}
 
 \* announcements: per link they alternate, starting with "added", and the
 \* adjacency is what has been announced
-Announced == [][last'.a \in {"SwitchUp", "SwitchDown", "Advance", "Cut", "Restore"} =>
+Announced == [][last'.a \in {"SwitchUp", "SwitchDown", "Advance", "Cut", "Restore", "Delay", "Late"} =>
                   LET r == EvFinal(adj, last'.exp.evs) IN r.ok /\ r.set = adj']_vars
 \* nothing changes on the controller side when only a wire changes
-SilentWires == [][last'.a \in {"Cut", "Restore"} => adj' = adj /\ nf' = nf]_vars
+SilentWires == [][last'.a \in {"Cut", "Restore", "Delay"} => adj' = adj /\ nf' = nf]_vars
 \* a live link that is known is never withdrawn while the network is undisturbed
 NeverDropsLive ==
   [][\A l \in adj : (IsLive(l, phys, conn) /\ IsLive(l, phys', conn')
@@ -438,10 +494,17 @@ NeverDropsLive ==
 \* a link that is known, stays live and has been undisturbed for a full probe
 \* cycle is not announced as removed (not even to be announced again at once)
 NoSpuriousWithdrawal ==
-  [][last'.a \in {"SwitchUp", "SwitchDown", "Advance"} =>
+  [][last'.a \in {"SwitchUp", "SwitchDown", "Advance", "Late"} =>
        \A l \in EvLinks(last'.exp.evs, 0) :
           ~(l \in adj /\ IsLive(l, phys, conn) /\ IsLive(l, phys', conn')
             /\ quiet >= Detect /\ age[l] >= Detect)]_vars
+\* a probe that arrives late brings back at most the wire it travelled over, and
+\* only between connected switches: the links of a switch that has gone stay gone
+LateNeverResurrects ==
+  [][last'.a = "Late" =>
+       /\ \A l \in adj' \ adj : l = last'.args.l /\ l[1] \in conn /\ l[3] \in conn
+       /\ \A l \in EvLinks(last'.exp.evs, 1) : l[1] \in conn /\ l[3] \in conn
+       /\ adj \cap LiveSet(phys, conn) \subseteq adj']_vars
 \* the options are those the components were launched with: they never change
 ConfigConstant == [][cfg' = cfg]_vars
 
